@@ -11,6 +11,7 @@ import Nstd.Life.LemmasAssign
   the event log records every construction / destruction with its slot.  "Not moved" = the element is
   still an item of the container in the SAME slot, the log of the operation contains no construction and
   no destruction in that slot (`Ev.recycles`), and its key is unchanged (`Kept`).
+  `p : Per` = the items per block of each kind (blocks of N items, for every table N ≥ 1).
 -/
 namespace Nstd.Life
 
@@ -21,32 +22,32 @@ namespace Nstd.Life
     other variable after a swap), no object was constructed or destroyed in its slot during the operation and
     its key is unchanged - or every member object of the element was destroyed by the operation
     (it was removed).  There is no third possibility: an element is never relocated. -/
-theorem stable (ops : List Op) (op : Op) :
-    ∃ evs, (step (run init ops) op).log = (run init ops).log ++ evs ∧
-      ∀ c it, it ∈ ((run init ops).nodes c).items →
-        (∃ c', Kept (run init ops) (step (run init ops) op) evs it c c') ∨ Destroyed evs it c := by
-  have h := (reach_ok ops).1
-  have hsame : ∃ evs, (run init ops).log = (run init ops).log ++ evs ∧
-      ∀ c it, it ∈ ((run init ops).nodes c).items →
-        (∃ c', Kept (run init ops) (run init ops) evs it c c') ∨ Destroyed evs it c :=
+theorem stable (p : Per) (ops : List Op) (op : Op) :
+    ∃ evs, (step (run (init p) ops) op).log = (run (init p) ops).log ++ evs ∧
+      ∀ c it, it ∈ ((run (init p) ops).nodes c).items →
+        (∃ c', Kept (run (init p) ops) (step (run (init p) ops) op) evs it c c') ∨ Destroyed evs it c := by
+  have h := (reach_ok p ops).1
+  have hsame : ∃ evs, (run (init p) ops).log = (run (init p) ops).log ++ evs ∧
+      ∀ c it, it ∈ ((run (init p) ops).nodes c).items →
+        (∃ c', Kept (run (init p) ops) (run (init p) ops) evs it c c') ∨ Destroyed evs it c :=
     ⟨[], by simp, fun c it hi => Or.inl ⟨c, ⟨hi, rfl, fun _ he => absurd he List.not_mem_nil, rfl⟩⟩⟩
   unfold step stepRes
-  cases hc : compile (run init ops) op with
+  cases hc : compile (run (init p) ops) op with
   | none => exact hsame
   | some ms =>
     simp only
-    cases he : execAll (run init ops) ms with
+    cases he : execAll (run (init p) ops) ms with
     | none => exact hsame
     | some st' => exact execAll_stable h ms he
 
 /-- C05, sharp form per step: an insertion (`insert` / `append` / `prepend` / insert-or-assign, with any
     source operand, including a reference to an element of the container itself) removes nothing and relocates
     nothing - every element of every container keeps its slot. -/
-theorem insert_keeps_all (ops : List Op) (c : Var) (pos : Option Nat) (k v : Option SrcRef) (st' : State)
-    (he : exec (run init ops) (.put c pos k v) = some st') :
-    ∃ evs, st'.log = (run init ops).log ++ evs ∧
-      ∀ c0 it, it ∈ ((run init ops).nodes c0).items → Kept (run init ops) st' evs it c0 c0 := by
-  obtain ⟨evs, hl, hk⟩ := Stable.exec_stable (reach_ok ops).1 _ he
+theorem insert_keeps_all (p : Per) (ops : List Op) (c : Var) (pos : Option Nat) (k v : Option SrcRef) (st' : State)
+    (he : exec (run (init p) ops) (.put c pos k v) = some st') :
+    ∃ evs, st'.log = (run (init p) ops).log ++ evs ∧
+      ∀ c0 it, it ∈ ((run (init p) ops).nodes c0).items → Kept (run (init p) ops) st' evs it c0 c0 := by
+  obtain ⟨evs, hl, hk⟩ := Stable.exec_stable (reach_ok p ops).1 _ he
   refine ⟨evs, hl, ?_⟩
   intro c0 it hi
   rcases hk c0 it hi with ⟨_, hkept⟩ | ⟨hrem, _⟩
@@ -55,12 +56,12 @@ theorem insert_keeps_all (ops : List Op) (c : Var) (pos : Option Nat) (k v : Opt
 
 /-- C05, sharp form per step: `remove(iterator)` destroys exactly the designated element; every other element of
     every container keeps its slot. -/
-theorem remove_keeps_others (ops : List Op) (c : Var) (j : Nat) (st' : State)
-    (he : exec (run init ops) (.remove c j) = some st') :
-    ∃ evs, st'.log = (run init ops).log ++ evs ∧
-      ∀ c0 it, it ∈ ((run init ops).nodes c0).items →
-        ¬ (c0 = c ∧ ((run init ops).nodes c).items[j]? = some it) → Kept (run init ops) st' evs it c0 c0 := by
-  obtain ⟨evs, hl, hk⟩ := Stable.exec_stable (reach_ok ops).1 _ he
+theorem remove_keeps_others (p : Per) (ops : List Op) (c : Var) (j : Nat) (st' : State)
+    (he : exec (run (init p) ops) (.remove c j) = some st') :
+    ∃ evs, st'.log = (run (init p) ops).log ++ evs ∧
+      ∀ c0 it, it ∈ ((run (init p) ops).nodes c0).items →
+        ¬ (c0 = c ∧ ((run (init p) ops).nodes c).items[j]? = some it) → Kept (run (init p) ops) st' evs it c0 c0 := by
+  obtain ⟨evs, hl, hk⟩ := Stable.exec_stable (reach_ok p ops).1 _ he
   refine ⟨evs, hl, ?_⟩
   intro c0 it hi hne
   rcases hk c0 it hi with ⟨_, hkept⟩ | ⟨hrem, _⟩
@@ -114,9 +115,9 @@ theorem swap_hands_over (st st' : State) (c d : Var) (he : exec st (.swap c d) =
     released only by the destructor of the container: in every reachable state every step that is not a
     container destructor or `Array::reserve` keeps every allocated block allocated - insert, remove, clear, swap
     never free a block, so element addresses stay valid memory for the whole life of the container. -/
-theorem blocks_stay (ops : List Op) (m : Micro) (hm : m.releases = false) (st' : State)
-    (he : exec (run init ops) m = some st') : ∀ b n, (run init ops).blk b = some n → st'.blk b = some n :=
-  exec_blkKept (reach_ok ops).1 m hm he
+theorem blocks_stay (p : Per) (ops : List Op) (m : Micro) (hm : m.releases = false) (st' : State)
+    (he : exec (run (init p) ops) m = some st') : ∀ b n, (run (init p) ops).blk b = some n → st'.blk b = some n :=
+  exec_blkKept (reach_ok p ops).1 m hm he
 
 /-- C05 `pool_in_place` (micro-step level): the steps the PoolList / PoolMap operations consist of
     (`append` constructs the element in place from plain arguments; `remove`, `clear`, destructor, swap)
@@ -138,9 +139,9 @@ theorem pool_ops_in_place (st : State) (op : Op) (hp : op.isPoolOp = true) :
 def stableOps : List Op :=
   [.lInsert 0 none 1, .lInsert 0 none 2, .mInsert ⟨.M, 0⟩ 3 30, .mInsert ⟨.U, 0⟩ 3 30, .hInsert 0 none 4 40,
    .sInsert 0 none 4, .pAppend 0 9, .qAppend 0 1 2]
-example : (exec (run init stableOps) (.put ⟨.L, 0⟩ (some 1) none (some (.item ⟨.L, 0⟩ 0 1)))).isSome = true ∧
-    (exec (run init stableOps) (.remove ⟨.M, 0⟩ 0)).isSome = true ∧
-    (exec (run init stableOps) (.swap ⟨.P, 0⟩ ⟨.P, 1⟩)).isSome = true ∧
-    ((run init stableOps).nodes ⟨.Q, 0⟩).items.length = 1 := by decide +kernel
+example : (exec (run (init per4) stableOps) (.put ⟨.L, 0⟩ (some 1) none (some (.item ⟨.L, 0⟩ 0 1)))).isSome = true ∧
+    (exec (run (init per4) stableOps) (.remove ⟨.M, 0⟩ 0)).isSome = true ∧
+    (exec (run (init per4) stableOps) (.swap ⟨.P, 0⟩ ⟨.P, 1⟩)).isSome = true ∧
+    ((run (init per4) stableOps).nodes ⟨.Q, 0⟩).items.length = 1 := by decide +kernel
 
 end Nstd.Life
